@@ -8,6 +8,24 @@ PINNED = dict(FixKey=False, FixHdr=False, FixIP=False)
 REPAIRED = dict(FixKey=True, FixHdr=True, FixIP=True)
 
 
+def run_phases(ctx, phases):
+    """Runs the selected phases one after the other.  A phase that ends inconclusive - or dies with a driver error - is
+    recorded with ctx.defer_inconclusive and the remaining phases still run: whatever goes wrong in the machinery of
+    one phase must never hide a violation that this or another phase observed on the real code (exit 1 wins over
+    exit 2 in ctx.finish; without a violation the run ends inconclusive)."""
+    import traceback
+    from lib.vlib import Inconclusive
+    for name, fn in phases:
+        if not ctx.phase(name):
+            continue
+        try:
+            fn(ctx)
+        except Inconclusive as ex:
+            ctx.defer_inconclusive("phase %s: %s" % (name, ex))
+        except Exception:
+            ctx.defer_inconclusive("phase %s: driver error:\n%s" % (name, traceback.format_exc()))
+
+
 def _b(x):
     return "TRUE" if x else "FALSE"
 
@@ -22,9 +40,10 @@ def mc_cfg(cfginit, reqs, maxreqs, cache, props, twin=False, variant=PINNED):
     return "SPECIFICATION Spec\n" + consts(cfginit, reqs, maxreqs, cache, twin, variant) + "VIEW view\nPROPERTIES %s\n" % props
 
 
-def gen_cfg(reqs, maxreqs, cache, templates, shells, sfilters, plans, twin=False, variant=PINNED):
+def gen_cfg(reqs, maxreqs, cache, templates, shells, sfilters, plans, twin=False, variant=PINNED, unmaps=0):
     return ("SPECIFICATION GSpec\n" + consts("C01InitQuick", reqs, maxreqs, cache, twin, variant) +
-            "  GenTemplates <- %s\n  GenShells <- %s\n  GenServerFilters <- %s\n  GenPlans <- %s\n" % (templates, shells, sfilters, plans))
+            "  GenTemplates <- %s\n  GenShells <- %s\n  GenServerFilters <- %s\n  GenPlans <- %s\n  GenUnmaps = %d\n" % (
+                templates, shells, sfilters, plans, unmaps))
 
 
 TRACE_CFG = ("SPECIFICATION TSpec\nCONSTANTS\n  CfgInit <- TNoCfg\n  Reqs = {}\n  MaxReqs = 0\n  CacheOn = FALSE\n  Twin = FALSE\n"
